@@ -116,7 +116,11 @@ class Real:
         self.users = users
         name = "srv-%s-%d" % (mode, idx)
         self.sysdb = os.path.join(sd, name, "system.db")
-        settings = {"ego.server.userdata": "sqlite://" + self.sysdb}
+        # generous server-side timeouts: on a loaded host the default 30 s read timeout expired before a handler read
+        # its body (seen once as 400 "unexpected end of JSON input") - an artefact of the host, not of the code under test
+        settings = {"ego.server.userdata": "sqlite://" + self.sysdb,
+                    "ego.server.read.timeout": "900s", "ego.server.read.header.timeout": "900s",
+                    "ego.server.write.timeout": "900s", "ego.server.idle.timeout": "900s"}
         if mode == "file":
             self.srv = _Server(sd, ego, users=users, settings=settings, name=name)
         else:
